@@ -28,10 +28,10 @@ package rangeplugin
 
 //@ func (*PluginState).Handler4
 //@   implements handler.Handler4
-//@   requires rinv(p) && !held(p.Mutex)
+//@   requires rinv(p) && !held(mu(p)) && !rheld(mu(p))
 //@   modifies everything
 //@   preserves *p
-//@   ensures rinv(p) && !held(p.Mutex)
+//@   ensures rinv(p) && !held(mu(p)) && !rheld(mu(p))
 // C02: a client that already has a binding keeps its address (and the record object)
 //@   ensures[C02:bound-client-keeps-its-address] old(has(p.Recordsv4, hwstr(req.ClientHWAddr))) ==> (ret0 == resp && !ret1 && \
 //@       p.Recordsv4[hwstr(req.ClientHWAddr)] == old(p.Recordsv4[hwstr(req.ClientHWAddr)]) && resp.YourIPAddr == old(p.Recordsv4[hwstr(req.ClientHWAddr)].IP))
